@@ -40,6 +40,14 @@ class Prop(BaseProp):
             if L != 32:
                 cases.append({"kind": "PrivB", "b": bytes(rng.randrange(1, 256) for _ in range(L)).hex()})
         cases.append({"kind": "PrivB", "b": ("00" + (5).to_bytes(32, "big").hex())})
+        # wrong-length encodings of scalars that were accepted (as 32 bytes) earlier in this process
+        for k in good[:6]:
+            k32 = k.to_bytes(32, "big")
+            cases.append({"kind": "PrivB", "b": ("00" + k32.hex())})
+            cases.append({"kind": "PrivB", "b": ("00" * 8 + k32.hex())})
+            if k32[0] == 0:
+                cases.append({"kind": "PrivB", "b": k32.lstrip(b"\x00").hex()})
+                cases.append({"kind": "PrivB", "b": k32[1:].hex()})
         for k in good[: (len(good) if T else 7)]:
             for comp in (True, False):
                 for test in (True, False):
